@@ -22,7 +22,7 @@ theorem command_count : commands.length = 115 := by decide +kernel
     of their declared fields (`commands_dropping_fields`). -/
 theorem non_conforming_commands :
     (commands.filter (fun c => !Conforms c)).map (·.name) =
-      ["NegotiateResponse", "WriteRequest"] := by decide +kernel
+      ["WriteRequest"] := by decide +kernel
 
 /-- the part of `Conforms` that `conforms_sound` rests on (everything but "no declared field is left
     out") fails for `WriteRequest` only -/
@@ -36,16 +36,17 @@ theorem core_non_conforming_commands :
 theorem commands_dropping_fields :
     (commands.filter (fun c => !allEmitted c)).map
         (fun c => (c.name, (c.fields.map (·.1)).filter (fun f => !(emittedDeep c.marshal).contains f))) =
-      [("NegotiateResponse", ["ServerName"])] := by decide +kernel
+      [] := by decide +kernel
 
 /-- the commands outside the straight-line fragment (a loop over a list field, a field emitted under
     a condition, bytes ahead of the parameter block): `Spec.Cifs.encode` is silent on them, so
     `conforms_sound` says nothing there and they are covered by the differential run only -/
 theorem commands_outside_straight_line :
     (commands.filter (fun c => (layoutM c.marshal).isNone)).map (·.name) =
-      ["FindResponse", "FindUniqueResponse", "LockAndReadResponse", "LockingAndxRequest", "OpenAndxRequest",
-       "OpenAndxResponse", "QueryInformationResponse", "ReadRawRequest", "TransactionRequest",
-       "WriteAndCloseRequest", "WriteAndxRequest", "WriteRawRequest", "WriteRequest"] := by decide +kernel
+      ["FindResponse", "FindUniqueResponse", "LockAndReadResponse", "LockingAndxRequest",
+       "NegotiateResponse", "OpenAndxRequest", "OpenAndxResponse", "QueryInformationResponse",
+       "ReadRawRequest", "TransactionRequest", "WriteAndCloseRequest", "WriteAndxRequest",
+       "WriteRawRequest", "WriteRequest"] := by decide +kernel
 
 /-- **Loops over list fields, proved**: of the commands outside the straight-line fragment exactly these five
     pass `ConformsLists` — `Conforms`, and nothing but straight-line statements and `range` loops over a
@@ -83,7 +84,8 @@ theorem optional_conforming_commands :
 theorem commands_outside_proved_fragments :
     (commands.filter (fun c => (layoutM c.marshal).isNone && !ConformsLists c && !ConformsOptional c)).map
         (fun c => (c.name, extFailures c)) =
-      [("WriteRequest", ["bytes ahead of the parameter block", "statement shape",
+      [("NegotiateResponse", ["statement shape"]),
+       ("WriteRequest", ["bytes ahead of the parameter block", "statement shape",
           "int-width/endianness or bytes ahead of the parameter block"])] := by decide +kernel
 
 /-- the nested structures `Marshal` loops over (`for _, x := range c.F { x.Marshal() }`) are these two -/
